@@ -95,6 +95,10 @@ fn payload_outcome(p: Box<dyn Any + Send>) -> Outcome {
     Outcome::Panic(m.replace("/repo/", ""))
 }
 
+pub fn payload_outcome_pub(p: Box<dyn Any + Send>) -> Outcome {
+    payload_outcome(p)
+}
+
 /// A live driver + its board.
 pub struct Rig {
     pub spec: &'static Spec,
